@@ -19,10 +19,6 @@ func podGroupsEqual(oldPodGroup, newPodGroup *enginev2alpha2.PodGroup) bool {
 }
 
 func mapsEqualBySourceKeys(source, target map[string]string) bool {
-	if source != nil && target == nil {
-		return false
-	}
-
 	for key, sourceValue := range source {
 		if targetValue, exists := target[key]; !exists || targetValue != sourceValue {
 			return false
